@@ -263,8 +263,11 @@ def failure_sites(t, c, acc=None):
 # case generation
 # ----------------------------------------------------------------------------------------------
 
-def _gen_tree(rng, depth, ctr, nreq, bias):
-    kinds = ['w'] * 4 + (['s', 'e', 'e', 'x'] if depth > 0 else [])
+def _gen_tree(rng, depth, ctr, nreq, bias, root=True):
+    if root and depth > 0:
+        kinds = ['s', 'e', 'e', 'x']          # a compound root whenever depth allows
+    else:
+        kinds = ['w'] * 4 + (['s', 'e', 'e', 'x'] if depth > 0 else [])
     k = rng.choice(kinds)
     if k == 'w':
         ctr[0] += 1
@@ -279,7 +282,7 @@ def _gen_tree(rng, depth, ctr, nreq, bias):
                     wait=rng.choice([0, 0.01]) if bs > 1 else 0,
                     dur=[rng.choice([0, 0, 1, 2, 4, 7]) for _ in range(nreq + 1)])
     n = rng.choice([2, 2, 3]) if k != 's' else rng.choice([2, 2, 3])
-    ch = [_gen_tree(rng, depth - 1, ctr, nreq, bias) for _ in range(n)]
+    ch = [_gen_tree(rng, depth - 1, ctr, nreq, bias, root=False) for _ in range(n)]
     if k == 'e':
         return dict(k='e', ff=rng.random() < 0.6, ch=ch)
     return dict(k=k, ch=ch)
